@@ -519,7 +519,9 @@ def main(ctx) -> int:
         from harness import kernels
 
         kernels.check_sym(ctx, files={'trajectories/builders/legacy.py'})
-        kernels.check_loops(ctx, files={'trajectories/builders/legacy.py'}, flights=6 if ctx.tier == 'quick' else 60)
+        kernels.check_loops(ctx, files={'trajectories/builders/legacy.py', 'trajectories/builders/base.py'},
+                            flights=6 if ctx.tier == 'quick' else 60)
+        kernels.check_fly_iteration(ctx, flights=24 if ctx.tier == 'quick' else 80)
     finally:
         Config.reset()
     return ctx.finish(RULE, TRUSTED, ASSUME)
